@@ -101,6 +101,13 @@ Theorem C20_gradient_bounds : forall (t : net) (dim : list nat) (hs : list R), o
 Proof. exact (gradient_bounds_spec sh). Qed.
 End C20_vector_calculus.
 
+(* non-vacuity of the premises of the vector-calculus theorems: a concrete rank-1 field on a 3 x 3 x 3 grid *)
+Definition ex_core20 (n : nat) : score RO := mkScore (K:=RO) 1 1 n (fun s _ _ => INR s).
+Example C20_vector_calculus_nonvacuous :
+  okR [3; 3; 3]%nat [ex_core20 3; ex_core20 3; ex_core20 3] /\ length [3; 3; 3]%nat = 3%nat /\
+  Forall (fun d => (d < length [3; 3; 3]%nat)%nat) [2; 0]%nat.
+Proof. split; [split; [split; [discriminate|reflexivity]|reflexivity]|split; [reflexivity|repeat constructor]]. Qed.
+
 Print Assumptions C20_partial.
 Print Assumptions C20_curl.
 Print Assumptions C20_laplacian.
